@@ -14,6 +14,7 @@ import (
 	"sort"
 	"strconv"
 	"strings"
+	"sync"
 	"time"
 	"unicode/utf8"
 
@@ -21,6 +22,7 @@ import (
 	"github.com/siglens/siglens/pkg/alerts/alertutils"
 	"github.com/siglens/siglens/pkg/config"
 	"github.com/siglens/siglens/pkg/dashboards"
+	"github.com/siglens/siglens/pkg/hooks"
 	"github.com/siglens/siglens/pkg/lookups"
 	usq "github.com/siglens/siglens/pkg/usersavedqueries"
 	vtable "github.com/siglens/siglens/pkg/virtualtable"
@@ -212,6 +214,8 @@ func (r *kvRun) audit(st kvStore, when string) {
 		switch {
 		case class == "ghost" && strings.HasPrefix(key, kvAliasMemView+"(no index)"):
 			class = "alias-listed-without-index" // the alias' inner map stays behind, empty
+		case class == "lost" && strings.HasPrefix(key, kvAliasMemView) && strings.HasSuffix(key, "\x00"):
+			class = "empty-alias-in-file-view-only" // acknowledged, returned by GetAliases, never in the alias→index map
 		case r.afterRe:
 			class += "-after-restart"
 		case r.firstTouch && r.lastOp.t == t:
@@ -298,6 +302,9 @@ func execKV(line string) Result {
 	config.InitializeTestingConfig(dir)
 	if err := st.boot(); err != nil {
 		return Result{Out: "harness-error:boot:" + err.Error()}
+	}
+	if c, ok := st.(interface{ cleanup() }); ok {
+		defer c.cleanup()
 	}
 	var res Result
 	run := &kvRun{store: f[1], res: &res, seen: map[string]bool{}}
@@ -550,8 +557,12 @@ func genKVLine(r *rand.Rand, store string) string {
 	if store == "alias" && r.Intn(15) == 0 {
 		pool = append(pool, []string{".", "..", "a/b", "a\\b"}[r.Intn(4)])
 	}
-	if store == "alias" && r.Intn(40) == 0 {
-		pool2 = append(pool2, "")
+	if store == "alias" && r.Intn(8) == 0 { // alias names that are no names: refused since patch c20-14
+		pool2 = append([]string{}, pool2...)
+		pool2 = append(pool2, []string{"", "", ".", "..", "a/b", "a\\b", "/", "../x"}[r.Intn(8)])
+		if r.Intn(2) == 0 {
+			pool2 = append(pool2, "")
+		}
 	}
 	nt := []int{1, 2, 2, 3, 3}[r.Intn(5)]
 	tperm := r.Perm(3)[:nt]
@@ -860,12 +871,10 @@ func (s *kvAlias) restart() error {
 const kvAliasFileView, kvAliasMemView = "file-view(GetAliases) ", "memory-view(alias→index map) "
 
 func (s *kvAlias) shadowOf(t int) map[string]string {
-	// both read directions must show every acknowledged pair; the empty alias name is granted as "not a name"
+	// both read directions must show every acknowledged pair (the empty alias name is no exception: since patch
+	// c20-14 AddAliases refuses it; before, it was acknowledged, written to the index' file and never put into memory)
 	m := map[string]string{}
 	for k := range s.shadow[t] {
-		if strings.HasSuffix(k, "\x00") {
-			continue
-		}
 		m[kvAliasFileView+k] = "1"
 		m[kvAliasMemView+k] = "1"
 	}
@@ -884,9 +893,7 @@ func (s *kvAlias) readAll(t int) (map[string]string, error) {
 			return nil, fmt.Errorf("GetAliases(%q): %v", idx, err)
 		}
 		for a := range as {
-			if a != "" {
-				out[kvAliasFileView+idx+"\x00"+a] = "1"
-			}
+			out[kvAliasFileView+idx+"\x00"+a] = "1"
 		}
 	}
 	all, err := vtable.GetAllAliasesAsMapArray(org)
@@ -910,7 +917,8 @@ func kvAliasErr(err error) string {
 		return "ok"
 	case errors.Is(err, os.ErrNotExist):
 		return "nf"
-	case strings.Contains(err.Error(), "indexName is null"), strings.Contains(err.Error(), "indexName is invalid"), strings.Contains(err.Error(), "invalid indexName"):
+	case strings.Contains(err.Error(), "indexName is null"), strings.Contains(err.Error(), "indexName is invalid"), strings.Contains(err.Error(), "invalid indexName"),
+		strings.Contains(err.Error(), "alias name is invalid"):
 		return "inv"
 	}
 	return "err:" + strings.ReplaceAll(err.Error(), " ", "_")
@@ -1277,6 +1285,27 @@ func (s *kvDash) removeTree(t, id int) {
 	delete(s.shadow[t], id)
 }
 
+// folderNamesUnique: createFolder and a folder rename refuse a name that a sibling folder carries ("already exists
+// in this location"), i.e. (parent, name) is a key of folders; after an ACCEPTED folder operation the parent is
+// read back through getFolderContents and must not list two folders of one name.
+func (s *kvDash) folderNamesUnique(t, parent int, what string) {
+	c, err := dashboards.VerifGetFolderContents(s.ref(parent), kvOrgs[t])
+	if err != nil {
+		return
+	}
+	seen := map[string]string{}
+	for _, ch := range c.Items {
+		if ch.Type != dashboards.ItemTypeFolder {
+			continue
+		}
+		if other, dup := seen[ch.Name]; dup {
+			kvCurRun.fail("two-folders-one-name-in-a-parent", fmt.Sprintf("after %s (org %d): folder #%d lists two folders named %q (#%d and #%d) — create and rename refuse that, the move did not check", what, kvOrgs[t], parent, ch.Name, s.number(other), s.number(ch.ID)))
+			return
+		}
+		seen[ch.Name] = ch.ID
+	}
+}
+
 func (s *kvDash) apply(op kvOp) string {
 	org := kvOrgs[op.t]
 	sh := s.shadow[op.t]
@@ -1307,6 +1336,7 @@ func (s *kvDash) apply(op kvOp) string {
 		}
 		n := s.newID(id)
 		sh[n] = &kvDashObj{folder: true, name: op.k, parent: parentNum}
+		s.folderNamesUnique(op.t, parentNum, "createFolder")
 		return fmt.Sprintf("ok:%d", n)
 	case 'u':
 		details := map[string]interface{}{"name": op.k, "description": op.v}
@@ -1332,6 +1362,9 @@ func (s *kvDash) apply(op kvOp) string {
 		}
 		return kvDashErr(err)
 	case 'r':
+		if o := sh[op.id]; o != nil && o.folder && op.pid >= 0 && op.pid != o.parent && (op.k == "" || op.k == o.name) {
+			kvCurRun.res.Tags = append(kvCurRun.res.Tags, "folder-move-without-rename-requested")
+		}
 		err := dashboards.VerifUpdateFolder(s.ref(op.id), op.k, pidRef, org)
 		if err == nil {
 			o := sh[op.id]
@@ -1343,12 +1376,16 @@ func (s *kvDash) apply(op kvOp) string {
 				kvCurRun.fail("folder-update-accepted-for-dashboard-id", fmt.Sprintf("updateFolder(#%d, name %q) succeeded on a DASHBOARD id: the folder structure is changed, the dashboard's own details are not", op.id, op.k))
 				kvCurRun.tainted[op.t] = true
 			default:
+				if op.pid >= 0 && op.pid != o.parent && (op.k == "" || op.k == o.name) {
+					kvCurRun.res.Tags = append(kvCurRun.res.Tags, "folder-moved-without-rename")
+				}
 				if op.k != "" {
 					o.name = op.k
 				}
 				if op.pid >= 0 {
 					o.parent = op.pid
 				}
+				s.folderNamesUnique(op.t, o.parent, "updateFolder")
 			}
 		}
 		return kvDashErr(err)
@@ -1486,6 +1523,28 @@ func genDashLine(r *rand.Rand) string {
 	}
 	objs := []gobj{{-1, true}} // 0 = root
 	var ops []string
+	if r.Intn(5) == 0 {
+		// by construction: folders N (#1) and M (#2) below the root, N (#3) inside M; then #3 is moved to the root
+		// (without a new name / with its own name / with another name), where a folder N exists already
+		t := tperm[0]
+		n, m := kvHex(pool[0]), kvHex(pool[1])
+		if pool[0] == "" || pool[1] == "" || pool[0] == pool[1] {
+			n, m = kvHex("n1"), kvHex("m1")
+		}
+		ops = append(ops, fmt.Sprintf("f%d.%s", t, n), fmt.Sprintf("f%d.%s", t, m), fmt.Sprintf("f%d.%s@2", t, n))
+		objs = append(objs, gobj{t, true}, gobj{t, true}, gobj{t, true})
+		switch r.Intn(4) {
+		case 0:
+			ops = append(ops, fmt.Sprintf("r%d.3>@0", t))
+		case 1:
+			ops = append(ops, fmt.Sprintf("r%d.3>%s@0", t, n))
+		case 2:
+			ops = append(ops, fmt.Sprintf("r%d.1>@2", t)) // the other way round: #1 into M, next to #3
+		default:
+			ops = append(ops, fmt.Sprintf("r%d.3>%s@0", t, m), fmt.Sprintf("r%d.3>@0", t))
+		}
+		ops = append(ops, fmt.Sprintf("k%d.0", t), fmt.Sprintf("l%d", t))
+	}
 	pickID := func(t int, wantFolder bool, allowRoot bool) int {
 		if r.Intn(100) < pForeign || len(objs) == 1 {
 			if r.Intn(6) == 0 {
@@ -1564,12 +1623,66 @@ func genDashLine(r *rand.Rand) string {
 	return "kv dash " + strings.Join(ops, " ")
 }
 
+// ---------------------------------------------------------------- requests of an org (contact points, alerts)
+
+// The update / delete / get handlers of contact points and alerts take no org id; the org of a request is what the
+// deployment's org id hook (hooks.GlobalHooks.GetOrgIdHookQuery, used by CallWithMyIdQuery for the other routes)
+// resolves from the request.  The harness installs a hook that reads the org from a user value of the request.
+func kvInstallOrgHook() {
+	hooks.GlobalHooks.GetOrgIdHookQuery = func(ctx *fasthttp.RequestCtx) (int64, error) {
+		if v, ok := ctx.UserValue("verif-org").(int64); ok {
+			return v, nil
+		}
+		return 0, errors.New("verif: request without an org")
+	}
+}
+
+// kvRequest runs one handler with the request body of org `org`; a status other than 200 comes back as an error
+// carrying the message of the response
+func kvRequest(h func(*fasthttp.RequestCtx), org int64, body []byte, uv map[string]string) ([]byte, error) {
+	ctx := kvCtx(body, uv)
+	ctx.SetUserValue("verif-org", org)
+	h(ctx)
+	if ctx.Response.StatusCode() == fasthttp.StatusOK {
+		return ctx.Response.Body(), nil
+	}
+	var m struct {
+		Message string `json:"message"`
+		Error   string `json:"error"`
+	}
+	if err := json.Unmarshal(ctx.Response.Body(), &m); err != nil || m.Message+m.Error == "" {
+		return nil, fmt.Errorf("status %d: %s", ctx.Response.StatusCode(), string(ctx.Response.Body()))
+	}
+	return nil, errors.New(m.Error + m.Message)
+}
+
+// another org than the caller's, for the org_id member of a request body (which the handlers must not trust)
+func kvOtherOrg(t int) int64 { return kvOrgs[(t+1)%len(kvOrgs)] }
+
+func kvContactBody(id, name, v string, bodyOrg *int64) []byte {
+	sl := []map[string]string{}
+	for _, c := range kvContactSlack(v) {
+		sl = append(sl, map[string]string{"channel_id": c.ChannelId, "slack_token": c.SlToken})
+	}
+	m := map[string]interface{}{"contact_name": name, "pager_duty": v, "slack": sl}
+	if id != "" {
+		m["contact_id"] = id
+	}
+	if bodyOrg != nil {
+		m["org_id"] = *bodyOrg
+	}
+	b, _ := json.Marshal(m)
+	return b
+}
+
 // ---------------------------------------------------------------- contact points (sqlite / gorm)
 
-// kvContact drives the contact-point methods of pkg/alerts/alertsqlite through the alertsHandler database
-// object (what the HTTP handlers call).  Ids are numbers: n = the n-th contact created by the line.
-//   c<t>.<name>=<v> CreateContact     u<t>.<id>=<name>:<v> UpdateContactPoint (OrgId = the caller's org)
-//   d<t>.<id> DeleteContactPoint      l<t> GetAllContactPoints       R close + reopen siglens.db
+// kvContact drives the contact-point REQUEST HANDLERS of pkg/alerts/alertsHandler (sqlite through gorm underneath);
+// the org of a request is resolved by the org id hook (kvInstallOrgHook).  Ids are numbers: n = the n-th contact
+// created by the line.
+//   c<t>.<name>=<v> ProcessCreateContactRequest (the body names ANOTHER org in org_id: the handler must not care)
+//   u<t>.<id>=<name>:<v> ProcessUpdateContactRequest, body without org_id    U…: body with another org's org_id
+//   d<t>.<id> ProcessDeleteContactRequest      l<t> GetAllContactPoints       R close + reopen siglens.db
 // The value v is a comma-separated list: PagerDuty = v, Slack = one {channel_id: part, slack_token: "tok-"+part}
 // per non-empty part.
 type kvContactObj struct {
@@ -1610,7 +1723,7 @@ func (s *kvContact) parse(tok string) (kvOp, bool) {
 		if op.v, ok = kvHexLower(v); !ok {
 			return kvOp{}, false
 		}
-	case 'u':
+	case 'u', 'U':
 		ids, nv, ok2 := kvSplit1(rest, "=")
 		k, v, ok3 := kvSplit1(nv, ":")
 		id, ok4 := kvDec(ids)
@@ -1623,6 +1736,9 @@ func (s *kvContact) parse(tok string) (kvOp, bool) {
 		}
 		if op.v, ok = kvHexLower(v); !ok {
 			return kvOp{}, false
+		}
+		if op.kind == 'U' {
+			op.kind, op.form = 'u', 'U' // the same request with a foreign org_id in its body
 		}
 	case 'd':
 		if op.id, ok = kvDec(rest); !ok || op.id == 0 {
@@ -1647,6 +1763,7 @@ func (s *kvContact) boot() error {
 		return err
 	}
 	kvContactConnected = true
+	kvInstallOrgHook()
 	return alertsHandler.VerifTuneDB()
 }
 
@@ -1746,40 +1863,74 @@ func (s *kvContact) apply(op kvOp) string {
 	org := kvOrgs[op.t]
 	switch op.kind {
 	case 'c':
-		c := &alertutils.Contact{ContactName: op.k, PagerDuty: op.v, Slack: kvContactSlack(op.v), OrgId: org}
-		err := alertsHandler.VerifCreateContact(c)
+		other := kvOtherOrg(op.t)
+		_, err := kvRequest(func(c *fasthttp.RequestCtx) { alertsHandler.ProcessCreateContactRequest(c, org) }, org, kvContactBody("", op.k, op.v, &other), nil)
 		if err != nil {
 			return kvContactErr(err)
 		}
-		if c.ContactId == "" {
+		// the response carries no id: the new contact is the one of this name (names are unique over all orgs)
+		cid := ""
+		for t := range kvOrgs {
+			cs, _ := alertsHandler.VerifGetAllContacts(kvOrgs[t])
+			for _, c := range cs {
+				if c.ContactName == op.k {
+					if _, old := s.num[c.ContactId]; !old {
+						cid = c.ContactId
+						if t != op.t {
+							kvCurRun.fail("create-stores-into-another-org", fmt.Sprintf("create contact %q by org %d: the contact is listed for org %d", op.k, org, kvOrgs[t]))
+							kvCurRun.tainted[t], kvCurRun.tainted[op.t] = true, true
+						}
+					}
+				}
+			}
+		}
+		if cid == "" {
 			// acknowledged without an id: nothing was created. The keyed store must show what it acknowledged.
-			kvCurRun.fail("create-ok-but-not-stored", fmt.Sprintf("CreateContact(name %q, org %d) returned success but created nothing (a contact with this name exists, in whatever org)", op.k, org))
+			kvCurRun.fail("create-ok-but-not-stored", fmt.Sprintf("create contact (name %q, org %d) answered success but created nothing (a contact with this name exists, in whatever org)", op.k, org))
 			return "ok:-"
 		}
-		s.uuid = append(s.uuid, c.ContactId)
+		s.uuid = append(s.uuid, cid)
 		n := len(s.uuid)
-		s.num[c.ContactId] = n
+		s.num[cid] = n
 		s.shadow[op.t][n] = &kvContactObj{name: op.k, v: op.v}
 		return fmt.Sprintf("ok:%d", n)
 	case 'u':
-		c := &alertutils.Contact{ContactId: s.ref(op.id), ContactName: op.k, PagerDuty: op.v, Slack: kvContactSlack(op.v), OrgId: org}
-		err := alertsHandler.VerifUpdateContact(c)
+		var bodyOrg *int64
+		if op.form == 'U' {
+			o := kvOtherOrg(op.t)
+			bodyOrg = &o
+			kvCurRun.res.Tags = append(kvCurRun.res.Tags, "update-body-names-another-org")
+		}
+		_, err := kvRequest(alertsHandler.ProcessUpdateContactRequest, org, kvContactBody(s.ref(op.id), op.k, op.v, bodyOrg), nil)
 		if err == nil {
 			if ow := s.owner(op.id); ow == op.t {
 				s.shadow[ow][op.id] = &kvContactObj{name: op.k, v: op.v}
+				// an update edits the contact, it does not hand it to another org
+				for t := range kvOrgs {
+					if t == op.t {
+						continue
+					}
+					cs, _ := alertsHandler.VerifGetAllContacts(kvOrgs[t])
+					for _, c := range cs {
+						if c.ContactId == s.ref(op.id) {
+							kvCurRun.fail("update-moves-contact-to-another-org", fmt.Sprintf("update of contact #%d by its owner org %d (body org_id: %v): the contact is now listed for org %d", op.id, org, kvShowOrg(bodyOrg), kvOrgs[t]))
+							kvCurRun.tainted[t], kvCurRun.tainted[op.t] = true, true
+						}
+					}
+				}
 			} else if ow >= 0 {
-				kvCurRun.fail("foreign-tenant-write", fmt.Sprintf("UpdateContactPoint(#%d) by org %d succeeded on the contact of org %d (which moves to org %d)", op.id, org, kvOrgs[ow], org))
+				kvCurRun.fail("foreign-tenant-write", fmt.Sprintf("update contact #%d requested by org %d succeeded on the contact of org %d", op.id, org, kvOrgs[ow]))
 				kvCurRun.tainted[ow], kvCurRun.tainted[op.t] = true, true
 			}
 		}
 		return kvContactErr(err)
 	case 'd':
-		err := alertsHandler.VerifDeleteContact(s.ref(op.id))
+		_, err := kvRequest(alertsHandler.ProcessDeleteContactRequest, org, []byte(fmt.Sprintf(`{"contact_id":%q}`, s.ref(op.id))), nil)
 		if err == nil {
 			if ow := s.owner(op.id); ow == op.t {
 				delete(s.shadow[ow], op.id)
 			} else if ow >= 0 {
-				kvCurRun.fail("foreign-tenant-write", fmt.Sprintf("DeleteContactPoint(#%d) by org %d succeeded on the contact of org %d", op.id, org, kvOrgs[ow]))
+				kvCurRun.fail("foreign-tenant-write", fmt.Sprintf("delete contact #%d requested by org %d succeeded on the contact of org %d", op.id, org, kvOrgs[ow]))
 				kvCurRun.tainted[ow], kvCurRun.tainted[op.t] = true, true
 			}
 		}
@@ -1800,6 +1951,13 @@ func (s *kvContact) apply(op kvOp) string {
 		return "[" + kvSortedJoin(rows, ",") + "]"
 	}
 	return "bad-op"
+}
+
+func kvShowOrg(o *int64) string {
+	if o == nil {
+		return "absent"
+	}
+	return strconv.FormatInt(*o, 10)
 }
 
 func genContactLine(r *rand.Rand) string {
@@ -1857,7 +2015,7 @@ func genContactLine(r *rand.Rand) string {
 			if r.Intn(100) >= pDup {
 				name = fmt.Sprintf("%s-u%d", name, j)
 			}
-			ops = append(ops, fmt.Sprintf("u%d.%d=%s:%s", t, pickID(t), kvHex(name), kvHex(kvPick(r, vals))))
+			ops = append(ops, fmt.Sprintf("%s%d.%d=%s:%s", []string{"u", "u", "U"}[r.Intn(3)], t, pickID(t), kvHex(name), kvHex(kvPick(r, vals))))
 			usedNames[name] = true
 		case x < 75:
 			ops = append(ops, fmt.Sprintf("d%d.%d", t, pickID(t)))
@@ -1876,6 +2034,15 @@ func genContactLine(r *rand.Rand) string {
 //   g0.<name> GetLookupFile   d0.<name> DeleteLookupFile   l0 GetAllLookupFiles
 type kvLookup struct {
 	shadow map[string]string
+	owner  map[string]int // the tenant whose request stored the file (the handlers themselves know no tenant)
+}
+
+// sharedBetweenTenants: the lookup handlers take no org id and keep ONE directory: a request made for one org reads,
+// replaces or deletes what a request of another org stored (C13 / C20: one tenant's operations never disturb another's)
+func (s *kvLookup) sharedBetweenTenants(t int, name, what string) {
+	if ow, ok := s.owner[name]; ok && ow != t {
+		kvCurRun.fail("shared-between-tenants", fmt.Sprintf("%s by org %d touches lookup file %q, which org %d uploaded: lookup files have no tenant dimension", what, kvOrgs[t], name, kvOrgs[ow]))
+	}
 }
 
 func kvSimpleName(n string) bool {
@@ -1886,13 +2053,13 @@ func (s *kvLookup) parse(tok string) (kvOp, bool) {
 	if tok == "R" {
 		return kvOp{kind: 'R', form: 'R'}, true
 	}
-	if tok == "l0" {
-		return kvOp{kind: 'l', form: 'l'}, true
+	if len(tok) == 2 && tok[0] == 'l' && tok[1] >= '0' && tok[1] <= '2' {
+		return kvOp{kind: 'l', form: 'l', t: int(tok[1] - '0')}, true
 	}
-	if len(tok) < 3 || tok[1] != '0' || tok[2] != '.' {
+	if len(tok) < 3 || tok[1] < '0' || tok[1] > '2' || tok[2] != '.' {
 		return kvOp{}, false
 	}
-	op := kvOp{kind: tok[0]}
+	op := kvOp{kind: tok[0], t: int(tok[1] - '0')}
 	rest := tok[3:]
 	var ok bool
 	switch op.kind {
@@ -1917,7 +2084,10 @@ func (s *kvLookup) parse(tok string) (kvOp, bool) {
 	return op, true
 }
 
-func (s *kvLookup) boot() error    { s.shadow = map[string]string{}; return nil }
+func (s *kvLookup) boot() error {
+	s.shadow, s.owner = map[string]string{}, map[string]int{}
+	return nil
+}
 func (s *kvLookup) restart() error { return nil } // nothing is held in memory
 
 func (s *kvLookup) shadowOf(t int) map[string]string {
@@ -1982,7 +2152,9 @@ func (s *kvLookup) apply(op kvOp) string {
 				return "err:answer"
 			}
 			stored := strings.TrimPrefix(body, pre)
+			s.sharedBetweenTenants(op.t, stored, "an upload with overwrite")
 			s.shadow[stored] = op.v
+			s.owner[stored] = op.t
 			return "ok:" + kvHex(stored)
 		case 409:
 			return "ex"
@@ -1995,6 +2167,7 @@ func (s *kvLookup) apply(op kvOp) string {
 		lookups.GetLookupFile(ctx)
 		switch ctx.Response.StatusCode() {
 		case 200:
+			s.sharedBetweenTenants(op.t, op.k, "a download")
 			return "=" + kvHex(string(ctx.Response.Body()))
 		case 404:
 			return "nf"
@@ -2005,7 +2178,9 @@ func (s *kvLookup) apply(op kvOp) string {
 		lookups.DeleteLookupFile(ctx)
 		switch ctx.Response.StatusCode() {
 		case 200:
+			s.sharedBetweenTenants(op.t, op.k, "a delete")
 			delete(s.shadow, op.k)
+			delete(s.owner, op.k)
 			return "ok"
 		case 404:
 			return "nf"
@@ -2021,6 +2196,7 @@ func (s *kvLookup) apply(op kvOp) string {
 		var hs []string
 		for _, n := range names {
 			hs = append(hs, kvHex(n))
+			s.sharedBetweenTenants(op.t, n, "the listing")
 		}
 		return "[" + kvSortedJoin(hs, ",") + "]"
 	}
@@ -2040,6 +2216,12 @@ func genLookupLine(r *rand.Rand) string {
 	contents := []string{"", "k,v\n1,2\n", "x", "ünï,1\n", "a,b\r\n", "\x00\x01\xff", "k\n" + strings.Repeat("row\n", 50)}
 	nops := 1 + r.Intn(30)
 	pR := []int{0, 5}[r.Intn(2)]
+	// one line in six is made by requests of two or three orgs (the handlers know no org: known finding
+	// kv/lookup/shared-between-tenants)
+	tn := []int{0}
+	if r.Intn(6) == 0 {
+		tn = r.Perm(3)[:2+r.Intn(2)]
+	}
 	var stored []string
 	var ops []string
 	for j := 0; j < nops; j++ {
@@ -2047,11 +2229,12 @@ func genLookupLine(r *rand.Rand) string {
 			ops = append(ops, "R")
 			continue
 		}
+		t := tn[r.Intn(len(tn))]
 		x := r.Intn(100)
 		switch {
 		case x < 40:
 			n := kvPick(r, pool)
-			ops = append(ops, fmt.Sprintf("%s0.%s=%s", []string{"c", "c", "u", "u", "C", "U"}[r.Intn(6)], kvHex(n), kvHex(kvPick(r, contents))))
+			ops = append(ops, fmt.Sprintf("%s%d.%s=%s", []string{"c", "c", "u", "u", "C", "U"}[r.Intn(6)], t, kvHex(n), kvHex(kvPick(r, contents))))
 			if kvSimpleName(n) {
 				stored = append(stored, n, n+".csv", n+".csv.gz")
 			}
@@ -2063,9 +2246,9 @@ func genLookupLine(r *rand.Rand) string {
 			if !kvSimpleName(n) {
 				n = "a"
 			}
-			ops = append(ops, fmt.Sprintf("%s0.%s", []string{"g", "d"}[x/60%2], kvHex(n)))
+			ops = append(ops, fmt.Sprintf("%s%d.%s", []string{"g", "d"}[x/60%2], t, kvHex(n)))
 		default:
-			ops = append(ops, "l0")
+			ops = append(ops, fmt.Sprintf("l%d", t))
 		}
 	}
 	return "kv lookup " + strings.Join(ops, " ")
@@ -2115,7 +2298,7 @@ func (s *kvAlertDB) parse(tok string) (kvOp, bool) {
 		if op.k, ok = kvHexLower(rest); !ok {
 			return kvOp{}, false
 		}
-	case 'c':
+	case 'c', 'C':
 		body, pid, ok1 := kvSplitAt(rest)
 		k, v, ok2 := kvSplit1(body, "=")
 		if !ok1 || !ok2 || pid < 1 {
@@ -2127,6 +2310,9 @@ func (s *kvAlertDB) parse(tok string) (kvOp, bool) {
 		}
 		if op.v, ok = kvHexLower(v); !ok {
 			return kvOp{}, false
+		}
+		if op.kind == 'C' {
+			op.kind, op.form = 'c', 'C' // the same request with a foreign org_id in its body
 		}
 	case 'u':
 		body, pid, ok1 := kvSplitAt(rest)
@@ -2169,8 +2355,12 @@ func (s *kvAlertDB) boot() error {
 		return err
 	}
 	kvContactConnected = true
+	kvInstallOrgHook()
+	kvAdbOnce.Do(alertsHandler.VerifJobPrepare) // the cron jobs the handlers create wait ≥ 60 s for their first run
 	return alertsHandler.VerifTuneDB()
 }
+
+var kvAdbOnce sync.Once
 
 func (s *kvAlertDB) restart() error {
 	alertsHandler.Disconnect()
@@ -2178,6 +2368,36 @@ func (s *kvAlertDB) restart() error {
 		return err
 	}
 	return alertsHandler.VerifTuneDB()
+}
+
+// cleanup: the create / update handlers schedule a cron job per alert; a line lasts milliseconds and removes them
+func (s *kvAlertDB) cleanup() {
+	for _, id := range s.auuid {
+		alertsHandler.VerifJobRemove(id)
+	}
+}
+
+func kvAlertBody(id, name, msg, contactID, contactName string, bodyOrg *int64) []byte {
+	m := map[string]interface{}{
+		"alert_name":    name,
+		"alert_type":    alertutils.AlertTypeLogs,
+		"contact_id":    contactID,
+		"contact_name":  contactName,
+		"queryParams":   map[string]string{"data_source": "Logs", "queryLanguage": "Splunk QL", "queryText": "* | stats count", "startTime": "now-5m", "endTime": "now", "index": "*", "queryMode": "Builder"},
+		"condition":     alertutils.IsAbove,
+		"value":         1,
+		"eval_for":      1,
+		"eval_interval": 1,
+		"message":       msg,
+	}
+	if id != "" {
+		m["alert_id"] = id
+	}
+	if bodyOrg != nil {
+		m["org_id"] = *bodyOrg
+	}
+	b, _ := json.Marshal(m)
+	return b
 }
 
 func (s *kvAlertDB) cref(n int) string {
@@ -2204,6 +2424,8 @@ func kvAlertErr(err error) string {
 		return "ex"
 	case strings.Contains(m, "Contact does not exist"), strings.Contains(m, "contact:") && strings.Contains(m, "does not exist"):
 		return "pnf"
+	case strings.Contains(m, "already exists"):
+		return "ex"
 	case strings.Contains(m, "does not exist"):
 		return "nf"
 	case strings.Contains(m, "not valid"), strings.Contains(m, "not Valid"), strings.Contains(m, "is not valid"):
@@ -2269,34 +2491,50 @@ func (s *kvAlertDB) apply(op kvOp) string {
 		s.cname[len(s.cuuid)] = op.k
 		return fmt.Sprintf("ok:%d", len(s.cuuid))
 	case 'c':
-		a := alertutils.AlertDetails{
-			AlertConfig: alertutils.AlertConfig{
-				AlertName: op.k, AlertType: alertutils.AlertTypeLogs, ContactID: s.cref(op.pid),
-				QueryParams: alertutils.QueryParams{DataSource: "Logs", QueryLanguage: "Splunk QL", QueryText: "* | stats count", StartTime: "now-5m", EndTime: "now", Index: "*", QueryMode: "Builder"},
-				Condition:   alertutils.IsAbove, Value: 1, EvalWindow: 1, EvalInterval: 1, Message: op.v,
-			},
-			OrgId: org,
+		var bodyOrg *int64
+		if op.form == 'C' {
+			o := kvOtherOrg(op.t)
+			bodyOrg = &o
+			kvCurRun.res.Tags = append(kvCurRun.res.Tags, "create-body-names-another-org")
 		}
-		created, err := alertsHandler.VerifCreateAlert(&a)
+		_, err := kvRequest(func(c *fasthttp.RequestCtx) { alertsHandler.ProcessCreateAlertRequest(c, org) }, org, kvAlertBody("", op.k, op.v, s.cref(op.pid), "", bodyOrg), nil)
 		if err != nil {
 			return kvAlertErr(err)
 		}
-		s.auuid = append(s.auuid, created.AlertId)
+		// the response carries no id: the new alert is the one of this name (names are unique over all orgs)
+		aid := ""
+		for t := range kvOrgs {
+			as, _ := alertsHandler.VerifGetAllAlerts(kvOrgs[t])
+			for _, a := range as {
+				if _, old := s.anum[a.AlertId]; !old && a.AlertName == op.k {
+					aid = a.AlertId
+					if t != op.t {
+						kvCurRun.fail("create-stores-into-another-org", fmt.Sprintf("create alert %q requested by org %d (body org_id: %v): the alert is listed for org %d", op.k, org, kvShowOrg(bodyOrg), kvOrgs[t]))
+						kvCurRun.tainted[t], kvCurRun.tainted[op.t] = true, true
+					}
+				}
+			}
+		}
+		if aid == "" {
+			kvCurRun.fail("create-ok-but-not-stored", fmt.Sprintf("create alert %q requested by org %d answered success but no org lists the alert", op.k, org))
+			return "ok:-"
+		}
+		s.auuid = append(s.auuid, aid)
 		n := len(s.auuid)
-		s.anum[created.AlertId] = n
+		s.anum[aid] = n
 		s.shadow[op.t][n] = &kvAlertObj{name: op.k, msg: op.v, cid: op.pid}
 		return fmt.Sprintf("ok:%d", n)
 	case 'u':
-		// ProcessUpdateAlertRequest: find the alert, overwrite the configuration fields, UpdateAlert
-		a, err := alertsHandler.VerifGetAlert(s.aref(op.id))
-		if err != nil {
-			return kvAlertErr(err)
+		// ProcessUpdateAlertRequest; a client that does not change the contact sends the one the alert has
+		// (contact_name is taken from the request as it is unless the contact id changes: the client sends the name it shows)
+		contactID, contactName := "", ""
+		if a, err := alertsHandler.VerifGetAlert(s.aref(op.id)); err == nil {
+			contactID, contactName = a.ContactID, a.ContactName
 		}
-		a.AlertName, a.Message = op.k, op.v
-		if op.pid >= 0 {
-			a.ContactID = s.cref(op.pid)
+		if op.pid >= 0 && s.cref(op.pid) != contactID {
+			contactID, contactName = s.cref(op.pid), s.cname[op.pid]
 		}
-		err = alertsHandler.VerifUpdateAlert(a)
+		_, err := kvRequest(alertsHandler.ProcessUpdateAlertRequest, org, kvAlertBody(s.aref(op.id), op.k, op.v, contactID, contactName, nil), nil)
 		if err == nil {
 			if ow := s.owner(op.id); ow == op.t {
 				o := s.shadow[ow][op.id]
@@ -2305,32 +2543,39 @@ func (s *kvAlertDB) apply(op kvOp) string {
 					o.cid = op.pid
 				}
 			} else if ow >= 0 {
-				kvCurRun.fail("foreign-tenant-write", fmt.Sprintf("UpdateAlert(#%d) by org %d succeeded on the alert of org %d", op.id, org, kvOrgs[ow]))
+				kvCurRun.fail("foreign-tenant-write", fmt.Sprintf("update alert #%d requested by org %d succeeded on the alert of org %d", op.id, org, kvOrgs[ow]))
 				kvCurRun.tainted[ow], kvCurRun.tainted[op.t] = true, true
 			}
 		}
 		return kvAlertErr(err)
 	case 'd':
-		err := alertsHandler.VerifDeleteAlert(s.aref(op.id))
+		_, err := kvRequest(alertsHandler.ProcessDeleteAlertRequest, org, []byte(fmt.Sprintf(`{"alert_id":%q}`, s.aref(op.id))), nil)
 		if err == nil {
 			if ow := s.owner(op.id); ow == op.t {
 				delete(s.shadow[ow], op.id)
 			} else if ow >= 0 {
-				kvCurRun.fail("foreign-tenant-write", fmt.Sprintf("DeleteAlert(#%d) by org %d succeeded on the alert of org %d", op.id, org, kvOrgs[ow]))
+				kvCurRun.fail("foreign-tenant-write", fmt.Sprintf("delete alert #%d requested by org %d succeeded on the alert of org %d", op.id, org, kvOrgs[ow]))
 				kvCurRun.tainted[ow], kvCurRun.tainted[op.t] = true, true
 			}
 		}
 		return kvAlertErr(err)
 	case 'g':
-		a, err := alertsHandler.VerifGetAlert(s.aref(op.id))
+		body, err := kvRequest(alertsHandler.ProcessGetAlertRequest, org, nil, map[string]string{"alertID": s.aref(op.id)})
 		if err != nil {
 			return kvAlertErr(err)
 		}
+		var resp struct {
+			Alert *alertutils.AlertDetails `json:"alert"`
+		}
+		if err := json.Unmarshal(body, &resp); err != nil || resp.Alert == nil {
+			return "err:get-alert-response"
+		}
+		a := resp.Alert
 		if a.AlertId == "" {
 			return "-" // GetAlert of an unknown id answers an empty alert, not an error
 		}
 		if ow := s.owner(op.id); ow >= 0 && ow != op.t {
-			kvCurRun.fail("foreign-tenant-read", fmt.Sprintf("GetAlert(#%d) asked by org %d returns the alert of org %d", op.id, org, kvOrgs[ow]))
+			kvCurRun.fail("foreign-tenant-read", fmt.Sprintf("get alert #%d requested by org %d returns the alert of org %d", op.id, org, kvOrgs[ow]))
 		}
 		return kvAlertTok(s, a)
 	case 'l':
@@ -2404,7 +2649,7 @@ func genAlertDBLine(r *rand.Rand) string {
 				name = fmt.Sprintf("%s-%d", name, j)
 			}
 			cid := pickCid()
-			ops = append(ops, fmt.Sprintf("c%d.%s=%s@%d", t, kvHex(name), kvHex(kvPick(r, msgs)), cid))
+			ops = append(ops, fmt.Sprintf("%s%d.%s=%s@%d", []string{"c", "c", "C"}[r.Intn(3)], t, kvHex(name), kvHex(kvPick(r, msgs)), cid))
 			if !used[name] && name != "" && name != "*" && cid <= ncontacts {
 				used[name] = true
 				alerts = append(alerts, t)
